@@ -250,6 +250,50 @@ theorem parse_never_fuel (i : Input) : parse i ≠ .error .fuel := by
   · simp [kindOf] at hk
   · cases h1
 
+/-! ## reserved ranges -/
+
+theorem mem_natRange (a n v : Nat) : v ∈ natRange a n ↔ a ≤ v ∧ v < a + n := by
+  induction n generalizing a with
+  | zero => simp [natRange]
+  | succ n ih => simp [natRange, ih]; omega
+
+/-- **A reserved range `a-b` / `a to b` reserves exactly the ids `a … b`, both ends included** — whatever text
+surrounds the match, for every span of at most 100 ids (`rangeSearch` is the model of the `re.search`). -/
+theorem reserved_range_ids (s : List Char) (a b : Nat) (h : rangeSearch s = some (a, b)) (hab : a ≤ b)
+    (hspan : b + 1 - a ≤ 100) (v : Nat) :
+    (Int.ofNat v ∈ reservedIds (some [.text s])) ↔ a ≤ v ∧ v ≤ b := by
+  have he : expandEntry (.text s) = .ok ((natRange a (b + 1 - a)).map Int.ofNat) := by
+    have hna : ¬ (a > b) := by omega
+    have hns : ¬ (b + 1 - a > 100) := by omega
+    simp only [expandEntry, h, hna, hns, if_false]
+  have hr : reservedIds (some [.text s]) = (natRange a (b + 1 - a)).map Int.ofNat := by
+    simp [reservedIds, expandAll, he]
+  rw [hr, List.mem_map]
+  constructor
+  · rintro ⟨w, hw, hwv⟩
+    have : w = v := Int.ofNat.inj hwv
+    subst this
+    have := (mem_natRange a (b + 1 - a) w).mp hw
+    omega
+  · intro hv
+    exact ⟨v, (mem_natRange a (b + 1 - a) v).mpr (by omega), rfl⟩
+
+/-- a reserved id anywhere in the closure and a message with that id anywhere else: never accepted -/
+theorem reserved_vs_message_detected (i : Input) (c₁ c₂ : Bool) (ids : Option (List ResEntry)) (n : String) (v : Int)
+    (pre mid post : List Ev) (hfl : flatten i = pre ++ Ev.item c₁ (.reserved ids) :: mid ++ Ev.item c₂ (.msg n (some v)) :: post)
+    (hv : v ∈ reservedIds ids) : ∃ e, parse i = .error e := by
+  apply detect_complete
+  have : (flawsOf i.cfg (flatten i)).msgId = true := by
+    show dupOf Key.isMsgI (flatten i) = true
+    rw [hfl, List.append_assoc]
+    have h1 : Key.msgI v ∈ keysOf (pre ++ Ev.item c₁ (.reserved ids) :: mid) := by
+      rw [keysOf_append, keysOf_cons]
+      exact List.mem_append_right _ (List.mem_append_left _ (by simp [evKeys, itemKeys, hv]))
+    have := dupOf_of_mem (p := Key.isMsgI) (rest := post) (ev := Ev.item c₂ (.msg n (some v))) h1
+      (by simp [evKeys, itemKeys]) rfl
+    simpa [List.append_assoc] using this
+  simp [Flaws.conflict, this]
+
 /-! ## the oracle used on the implementation is the one the model always satisfies -/
 
 def obsOf (r : Except Err St) : Obs :=
